@@ -88,6 +88,7 @@ fn apply_galois_exact(cfg: &Cfg, grp: &str, case: u64, rng: &mut Rng, rep: &mut 
             if let Err(e) = valid_ct(&kit, &res) { viol(&o, rep, "apply_galois", spec.scheme_name(), "invalid_result", e); continue; }
             if res.size() != 2 || res.parms_id() != ct.parms_id() || res.is_ntt_form() != ct.is_ntt_form() || res.correction_factor() != ct.correction_factor() { viol(&o, rep, "apply_galois", spec.scheme_name(), "metadata", format!("g={}", g)); continue; }
             let want = refm::automorphism(&m, g, t);
+            if case == 0 && level == 0 && g == elts[elts.len() / 2] { rep.sample(json!({"group": grp, "params": spec.describe(), "galois_element": g, "plaintext_head": m[..n.min(8)], "expected_head": want[..n.min(8)], "decrypted_head": exact_poly(&kit, &oracle, &res).ok().map(|x| x.0[..n.min(8)].to_vec())})); }
             match exact_poly(&kit, &oracle, &res) {
                 Err(p) => viol(&o, rep, "apply_galois", &format!("{}|decrypt", spec.scheme_name()), "panic", p.0),
                 Ok((lm, om)) => {
@@ -144,6 +145,7 @@ fn rotations_exact(cfg: &Cfg, grp: &str, case: u64, rng: &mut Rng, rep: &mut Rep
                 let form = rng.below(3);
                 let r = lib(|| match form { 0 => { let mut x = ct.clone(); kit.eval.rotate_rows_inplace(&mut x, s, gk); x } 1 => { let mut d = Ciphertext::new(); kit.eval.rotate_rows(&ct, s, gk, &mut d); d } _ => kit.eval.rotate_rows_new(&ct, s, gk) });
                 rep.eval(Some(&format!("rr|{}|{}|{}|{}|{}", spec.scheme_name(), kname, n, level, s)));
+                if case == 0 && level == 0 && s == 1 { rep.sample(json!({"group": grp, "params": spec.describe(), "key_set": kname, "step": s, "input_slots": values[..n.min(8)], "expected_slots": rot_rows(&values, s)[..n.min(8)], "observed_slots": r.as_ref().ok().and_then(|c| lib(|| be.decode_new(&kit.dec.decrypt_new(c))).ok()).map(|v| v[..n.min(8)].to_vec())})); }
                 check(rep, "rotate_rows", if s > 0 { "step>0" } else { "step<0" }, r, rot_rows(&values, s), elt_for_step(n, s));
             }
             let form = rng.below(3);
